@@ -89,3 +89,6 @@ Qed.
 
 Lemma lenN_small_mod l : length l <= 255 -> (lenN l mod 256 = lenN l)%N.
 Proof. intros H. unfold lenN. apply N.mod_small. lia. Qed.
+
+Lemma flat_map_le3_length (l : list N) : length (flat_map (le_bytes 3) l) = 3 * length l.
+Proof. induction l as [|x l IH]; cbn [flat_map length]; [reflexivity|]. rewrite app_length, le_bytes_length, IH. lia. Qed.
